@@ -453,4 +453,16 @@ func (group *Group) delIn() {
 	group.stat.AudioCodec = ""
 	group.stat.VideoWidth = 0
 	group.stat.VideoHeight = 0
+
+	// 还在等视频关键帧的sub，等的是刚离开的这个输入的关键帧。下一个输入可能没有视频（比如纯音频），不能让它们一直等下去，
+	// 和输入到来之前就加入的sub保持一致，不再等待
+	for session := range group.rtmpSubSessionSet {
+		session.ShouldWaitVideoKeyFrame = false
+	}
+	for session := range group.httpflvSubSessionSet {
+		session.ShouldWaitVideoKeyFrame = false
+	}
+	for session := range group.rtspSubSessionSet {
+		session.ShouldWaitVideoKeyFrame = false
+	}
 }
